@@ -919,6 +919,9 @@ func extractSeriesOfJsonObjects(body []byte, useNumber bool) ([]map[string]inter
 
 			return nil, fmt.Errorf("ExtractSeriesOfJsonObjects: error decoding JSON: %v", err)
 		}
+		if obj == nil {
+			return nil, fmt.Errorf("ExtractSeriesOfJsonObjects: expected a JSON object, got null")
+		}
 
 		objects = append(objects, obj)
 	}
